@@ -8,7 +8,7 @@ PROFILE = {'name': 'c09', 'max_clients': 6, 'hostile_masks': False, 'weights': {
 def run(ctx):
     res = Result("C09")
     results, cover, shapes = common.e1_check(
-        ctx, res, PROFILE, n_quick=128, n_thorough=640, steps=160, steps_thorough=320,
+        ctx, res, PROFILE, n_quick=128, n_thorough=2560, steps=160, steps_thorough=320,
         relevant=lambda t: t[0] in ('kick', 'topic', 'invite'),
         nontrivial_rule='every actor rank x victim rank; multi-target KICK lists with absent, repeated and own names; actor as last member; unknown channels; empty/non-empty topics and comments on +t/-t channels; invitations to present, absent and unknown users on +i/-i channels followed by JOINs; distinct = (command, outcome, actor rank set, victim rank set | +t | +i)')
     n = sum(c for s, c in shapes.items() if s.startswith(("kick:", "topic:", "invite:")))
